@@ -76,6 +76,7 @@ Theorem C18_download_offers_control_session : forall w path r1 r2 rest x1 x2 x3 
   dp_tls_ok (r_data r2) = true -> dp_shutdown_ok (r_data r2) = true ->
   exists w', step w (ADownload path None None) = (OReturn (RvReplies [x1; x2; x3]), w') /\
     insync w' rest /\ w_data w' = None /\ w_cfg w' = w_cfg w /\
+    w_sess_id w' = w_sess_id w /\ w_ssl w' = w_ssl w /\ w_tls_up w' = w_tls_up w /\
     sink_bytes (io_events (skipn (length (w_trace w)) (w_trace w'))) = delivered (c_type (w_cfg w)) (concat (dp_segs (r_data r2))) /\
     wire_events (skipn (length (w_trace w)) (w_trace w')) =
       [WLine (setup_line (w_cfg w)); WReply x1; WLine (RETR_ ++ SP :: path); WReply x2; WReply x3] /\
@@ -85,3 +86,16 @@ Theorem C18_download_offers_control_session : forall w path r1 r2 rest x1 x2 x3 
        DTlsShutdown true; DTcpShutdown; DClose].
 Proof. exact download_passive_complete_tls. Qed.
 Print Assumptions C18_download_offers_control_session.
+
+(* "any number of consecutive transfers": k downloads over TLS on one control connection (passive modes, any payloads): every
+   data handshake offers the SAME session, the control connection's, when resumption is configured - and none when it is
+   not; the control session itself is untouched *)
+Theorem C18_consecutive_downloads_offer_the_control_session : forall paths rs,
+  forall w rest, tls_download_scripts (w_cfg w) paths rs ->
+  insync w (rs ++ rest) -> w_data w = None -> c_mode (w_cfg w) = Passive -> c_tls (w_cfg w) = true ->
+  let w' := snd (steps w (map (fun p => ADownload p None None) paths)) in
+  insync w' rest /\ w_sess_id w' = w_sess_id w /\
+  handshakes (skipn (length (w_trace w)) (w_trace w')) =
+    repeat (if c_resume (w_cfg w) then Some (w_sess_id w) else None) (length paths).
+Proof. exact consecutive_tls_downloads_offer_the_control_session. Qed.
+Print Assumptions C18_consecutive_downloads_offer_the_control_session.
